@@ -24,6 +24,8 @@ Inductive exp :=
       (* Closure / PositiveClosure / Join / PositiveJoin / Gather / PositiveGather *)
 | Look (neg : bool) (e : exp)
 | SkipTo (e : exp)
+| Assoc (left : bool) (e : exp)
+      (* LeftJoin / RightJoin (sep<{e}+ , sep>{e}+): e is the positive join Rep true (Some sep) false body *)
 | Call (r : nat)
 | Named (islist : bool) (n : str) (e : exp)
 | Over (islist : bool) (e : exp).
@@ -45,7 +47,7 @@ Fixpoint def_single (e : exp) : list str :=
   match e with
   | Leaf _ | Call _ => []
   | Seq es | Choice es => flat_map def_single es
-  | Group e | SkipGroup e | Opt e | Look _ e | SkipTo e | Over _ e => def_single e
+  | Group e | SkipGroup e | Opt e | Look _ e | SkipTo e | Assoc _ e | Over _ e => def_single e
   | Rep _ _ _ e => def_single e        (* Join.sep is not a Box child for defines *)
   | Named _ n e => n :: def_single e
   end.
@@ -54,7 +56,7 @@ Fixpoint def_list (e : exp) : list str :=
   match e with
   | Leaf _ | Call _ => []
   | Seq es | Choice es => flat_map def_list es
-  | Group e | SkipGroup e | Opt e | Look _ e | SkipTo e | Over _ e => def_list e
+  | Group e | SkipGroup e | Opt e | Look _ e | SkipTo e | Assoc _ e | Over _ e => def_list e
   | Rep _ _ _ e => def_list e
   | Named true n e => n :: def_list e
   | Named false _ e => def_list e
@@ -88,6 +90,7 @@ Fixpoint optimized (e : exp) : exp :=
   | Rep plus sep om e1 => Rep plus sep om (optimized e1)     (* Box.optimized leaves `sep` alone *)
   | Look neg e1 => Look neg (optimized e1)
   | SkipTo e1 => SkipTo (optimized e1)
+  | Assoc l e1 => Assoc l (optimized e1)
   | Named il n e1 => Named il n (optimized e1)
   | Over il e1 => Over il (optimized e1)
   end.
@@ -109,7 +112,7 @@ Fixpoint exp_size (e : exp) : nat :=
   match e with
   | Leaf _ | Call _ => 1
   | Seq es | Choice es => S (fold_right (fun x n => exp_size x + n) 0 es)
-  | Group e | SkipGroup e | Opt e | Look _ e | SkipTo e | Named _ _ e | Over _ e => S (exp_size e)
+  | Group e | SkipGroup e | Opt e | Look _ e | SkipTo e | Assoc _ e | Named _ _ e | Over _ e => S (exp_size e)
   | Rep _ sep _ e => S (exp_size e + match sep with Some s => exp_size s | None => 0 end)
   end.
 
